@@ -59,6 +59,8 @@ def check(run):
         C05.track(R)
     wiring(R)
     one_context(R, 'C06.wiring')
+    from .common import no_send_retry
+    no_send_retry(R, 'C06.wiring')       # nothing is compressed twice for one transmission
     from .common import stale_refs
     stale_refs(R, 'C06.wiring')
     raw(R)
